@@ -5,6 +5,7 @@ import MitmVerif.Model.C38
 import MitmVerif.Gen.C38
 import MitmVerif.Lemmas.C38_Conv
 import MitmVerif.Lemmas.C38_Host
+import MitmVerif.Lemmas.C38_Old
 namespace MitmVerif.Props.C38
 open MitmVerif.C38 MitmVerif.Gen.C38
 
@@ -331,6 +332,122 @@ theorem host_decode_ascii (b : Bytes) (h : ∀ c ∈ b, c.toNat < 0x80) : bsrUtf
 
 theorem host_decode_escape (n : Nat) (h : 0x80 ≤ n ∧ n ≤ 0xFF) :
     bsrCp (0xDC00 + n) = [0x5c, 0x78, hexd (n / 16), hexd (n % 16)] := bsrCp_escape n h
+
+
+/-! #### the older integer formats 5 … 9 -/
+
+def touchedOld : Nat → List Bytes
+  | 5 => [s "client_conn", s "server_conn"]
+  | 6 => [s "client_conn"]
+  | 7 => [s "request", s "response"]
+  | 8 => [s "request", s "response", s "is_replay"]
+  | 9 => [s "client_conn", s "server_conn"]
+  | _ => []
+
+theorem convOld_body (v : Nat) (f : Dict → Option Dict) (d d' : Dict) (m : Bytes)
+    (hf : convOld v = some f) (h : f d = some d') (hm : ∀ t ∈ touchedOld v, (t == m) = false) :
+    dget d' m = dget (setVersion d (v + 1)) m := by
+  unfold convOld at hf
+  split at hf <;> cases hf <;>
+    simp only [touchedOld, List.mem_cons, List.not_mem_nil, or_false, forall_eq_or_imp, forall_eq] at hm
+  · exact body_o5 d d' m h hm.1 hm.2
+  · exact body_o6 d d' m h hm
+  · exact body_o7 d d' m h hm.1 hm.2
+  · exact body_o8 d d' m h hm.1 hm.2.1 hm.2.2
+  · exact body_o9 d d' m h hm.1 hm.2
+
+theorem convOld_writes_next_version (v : Nat) (f : Dict → Option Dict) (d d' : Dict)
+    (hf : convOld v = some f) (h : f d = some d') : dget d' (s "version") = some (.int (v + 1)) := by
+  rw [convOld_body v f d d' _ hf h]
+  · exact dget_dset_same _ _ _
+  · unfold convOld at hf
+    split at hf <;> cases hf <;> decide +kernel
+
+theorem convOld_frame (v : Nat) (f : Dict → Option Dict) (d d' : Dict) (m : Bytes)
+    (hf : convOld v = some f) (h : f d = some d') (hv : (s "version" == m) = false)
+    (hm : ∀ t ∈ touchedOld v, (t == m) = false) : dget d' m = dget d m := by
+  rw [convOld_body v f d d' m hf h hm]; exact dget_dset_ne _ _ _ _ hv
+
+/-- **old_identity_preserved.** `id`, `type`, `error`, `intercepted` pass through every older converter. -/
+theorem old_identity_preserved (v : Nat) (f : Dict → Option Dict) (d d' : Dict)
+    (hf : convOld v = some f) (h : f d = some d') :
+    dget d' (s "id") = dget d (s "id") ∧ dget d' (s "type") = dget d (s "type") ∧
+    dget d' (s "error") = dget d (s "error") ∧ dget d' (s "intercepted") = dget d (s "intercepted") := by
+  refine ⟨?_, ?_, ?_, ?_⟩ <;>
+  · apply convOld_frame v f d d' _ hf h (by decide +kernel)
+    unfold convOld at hf
+    split at hf <;> cases hf <;> decide +kernel
+
+/-- **old_request_preserved.** Only 7→8 and 8→9 touch the request. -/
+theorem old_request_preserved (v : Nat) (f : Dict → Option Dict) (d d' : Dict) (h7 : v ≠ 7) (h8 : v ≠ 8)
+    (hf : convOld v = some f) (h : f d = some d') : dget d' (s "request") = dget d (s "request") := by
+  apply convOld_frame v f d d' _ hf h (by decide +kernel)
+  unfold convOld at hf
+  split at hf <;> cases hf <;> first | (exact absurd rfl h7) | (exact absurd rfl h8) | decide +kernel
+
+/-- **request_fields_8_9.** 8→9 removes `first_line_format` and `is_replay` from the request and gives it an empty
+    `authority`; method, scheme, host, port, path, headers, content, timestamps are what they were. -/
+theorem request_fields_8_9 (d d' : Dict) (r : Dict) (hr : dget d (s "request") = some (.dict r))
+    (h : conv_8_9 d = some d') :
+    ∃ r', dget d' (s "request") = some (.dict r') ∧ dget r' (s "first_line_format") = none ∧
+      dget r' (s "is_replay") = none ∧ dget r' (s "authority") = some (.bytes []) ∧
+      ∀ m, (s "first_line_format" == m) = false → (s "is_replay" == m) = false → (s "authority" == m) = false →
+        dget r' m = dget r m := by
+  unfold conv_8_9 at h
+  simp only [Option.bind_eq_bind, Option.bind_eq_some_iff, Option.pure_def, Option.some.injEq] at h
+  obtain ⟨⟨d1, rq⟩, h1, ⟨d2, rs⟩, h2, rfl⟩ := h
+  have hr' : dget (setVersion d 9) (s "request") = some (.dict r) := by
+    rw [← hr]; exact dget_dset_ne _ _ _ _ (by decide +kernel)
+  obtain ⟨r', e1, rest⟩ := req89_fields _ _ _ r h1 hr'
+  refine ⟨r', ?_, rest⟩
+  rw [dget_dset_ne _ _ _ _ (by decide +kernel), resp89_frame _ _ _ _ h2 (by decide +kernel)]
+  exact e1
+
+/-- **trailers_added_7_8.** 7→8 gives an existing request `trailers = None` and moves nothing else in it. -/
+theorem trailers_added_7_8 (d d' : Dict) (r : Dict) (hr : dget d (s "request") = some (.dict r))
+    (h : conv_7_8 d = some d') :
+    ∃ r', dget d' (s "request") = some (.dict r') ∧ dget r' (s "trailers") = some .null ∧
+      ∀ m, (s "trailers" == m) = false → dget r' m = dget r m := by
+  unfold conv_7_8 at h
+  simp only [Option.bind_eq_some_iff] at h
+  obtain ⟨d1, hd1, h⟩ := h
+  have hr' : dget (setVersion d 8) (s "request") = some (.dict r) := by
+    rw [← hr]; exact dget_dset_ne _ _ _ _ (by decide +kernel)
+  unfold trailersNull at hd1
+  rw [hr'] at hd1
+  simp only [Option.some.injEq] at hd1
+  subst hd1
+  refine ⟨_, ?_, dget_dset_same _ _ _, fun m hm => dget_dset_ne _ _ _ _ hm⟩
+  rw [trailersNull_frame _ _ _ _ h (by decide +kernel)]; exact dget_dset_same _ _ _
+
+/-- **tls_renamed_5_6.** In the client record `ssl_established`/`timestamp_ssl_setup` become
+    `tls_established`/`timestamp_tls_setup` with their values; every other field stays. -/
+theorem tls_renamed_5_6 (c c' : Dict) (h : sslToTls c = some c') :
+    dget c' (s "tls_established") = dget c (s "ssl_established") ∧
+    dget c' (s "timestamp_tls_setup") = dget c (s "timestamp_ssl_setup") ∧
+    dget c' (s "ssl_established") = none ∧ dget c' (s "timestamp_ssl_setup") = none ∧
+    ∀ m, (s "ssl_established" == m) = false → (s "tls_established" == m) = false →
+      (s "timestamp_ssl_setup" == m) = false → (s "timestamp_tls_setup" == m) = false → dget c' m = dget c m := by
+  unfold sslToTls at h
+  simp only [Option.bind_eq_some_iff] at h
+  obtain ⟨c1, h1, h2⟩ := h
+  obtain ⟨a1, a2⟩ := renameStrict_spec _ _ _ _ h1 (by decide +kernel)
+  obtain ⟨b1, b2⟩ := renameStrict_spec _ _ _ _ h2 (by decide +kernel)
+  refine ⟨?_, ?_, ?_, b2, ?_⟩
+  · rw [renameStrict_frame _ _ _ _ _ h2 (by decide +kernel) (by decide +kernel)]; exact a1
+  · rw [b1, renameStrict_frame _ _ _ _ _ h1 (by decide +kernel) (by decide +kernel)]
+  · rw [renameStrict_frame _ _ _ _ _ h2 (by decide +kernel) (by decide +kernel)]; exact a2
+  · intro m x1 x2 x3 x4
+    rw [renameStrict_frame _ _ _ _ _ h2 x3 x4, renameStrict_frame _ _ _ _ _ h1 x1 x2]
+
+-- non-vacuity: a format-8 record with a request runs through 8→9 and 9→10
+example :
+    let req : Value := .dict [(.str (s "first_line_format"), .str (s "relative")), (.str (s "path"), .bytes (s "/x"))]
+    let conn : Value := .dict [(.str (s "tls_established"), .bool true), (.str (s "alpn_proto_negotiated"), .bytes (s "h2")),
+                               (.str (s "cipher_name"), .null), (.str (s "via"), .null)]
+    let d : Dict := [(.str (s "version"), .int 8), (.str (s "request"), req), (.str (s "response"), .null),
+                     (.str (s "client_conn"), conn), (.str (s "server_conn"), conn)]
+    ((conv_8_9 d).bind conv_9_10).isSome = true := by decide +kernel
 
 /-! #### the whole modelled chain 12 → 21 -/
 
